@@ -21,9 +21,51 @@ TCase ==
   /\ UNCHANGED cvars
 
 \* a table: nrows, cols = function key -> [off, flat, classes]
+(* ---- huge sparse tables (more than 16 blocks of 65,536 rows, a handful of values): the optional index is a  *)
+(* partial map row -> rank and select is its inverse, whatever the block structure (whole blocks may be empty). *)
+(* A column is the sequence of its non-empty rows <<row, values>>.                                              *)
+SparseWellFormed(rows, n) ==
+  /\ {i \in 1..Len(rows) : ~(rows[i][1] >= 0 /\ rows[i][1] < n /\ rows[i][2] # <<>>)} = {}
+  /\ {i \in 1..(Len(rows) - 1) : rows[i][1] >= rows[i + 1][1]} = {}
+ShiftRows(rows, d) == [i \in 1..Len(rows) |-> <<rows[i][1] + d, rows[i][2]>>]
+RECURSIVE SumRows(_)
+SumRows(ts) == IF ts = <<>> THEN 0 ELSE tables[Head(ts)].nrows + SumRows(Tail(ts))
+RECURSIVE StackSparse(_, _, _)
+StackSparse(key, ts, d) ==
+  IF ts = <<>> THEN <<>>
+  ELSE LET T == tables[Head(ts)] IN
+       (IF key \in DOMAIN T.cols THEN ShiftRows(T.cols[key].rows, d) ELSE <<>>) \o StackSparse(key, Tail(ts), d + T.nrows)
+SparseExpected(key) == IF Has(Ev, "stack") THEN StackSparse(key, Ev.stack, 0)
+                       ELSE IF key \in DOMAIN tables[Ev.t].cols THEN tables[Ev.t].cols[key].rows ELSE <<>>
+SparseRangeOk(c, rg) ==
+  rg.rows = SelectSeq([i \in 1..Len(c.rows) |-> c.rows[i][1]],
+                      LAMBDA r : LET vs == c.rows[CHOOSE i \in 1..Len(c.rows) : c.rows[i][1] = r][2]
+                                 IN {j \in 1..Len(vs) : rg.lo <= vs[j] /\ vs[j] < rg.hiu} # {})
+SparseColOk(c) ==
+  IF Has(c, "error") THEN FALSE ELSE IF Has(c, "panic") THEN FALSE
+  ELSE /\ c.nrows = Ev.nrows /\ SparseWellFormed(c.rows, c.nrows)
+       /\ c.rows = SparseExpected(c.key)                                  \* exactly the rows and values written / stacked
+       /\ c.card # "full"
+       /\ (c.card = "optional" => {i \in 1..Len(c.rows) : Len(c.rows[i][2]) # 1} = {})
+       /\ (Has(c, "dict") => StrictlyIncreasing(c.dict))
+       /\ (Has(c, "ranges") =>
+             /\ c.first_ok
+             /\ {i \in 1..Len(c.rows) : {j \in 1..Len(c.rows[i][2]) : ~(c.min_below <= c.rows[i][2][j] /\ c.rows[i][2][j] < c.max_upto)} # {}} = {}
+             /\ {j \in 1..Len(c.ranges) : ~SparseRangeOk(c, c.ranges[j])} = {})
+       \* select (iter_non_null_docs of the optional index) enumerates exactly the rows holding a value
+       /\ (Has(c, "non_null") => c.non_null = [i \in 1..Len(c.rows) |-> c.rows[i][1]])
+SparseReadOk ==
+  /\ Ev.nrows = (IF Has(Ev, "stack") THEN SumRows(Ev.stack) ELSE tables[Ev.t].nrows)
+  /\ {i \in 1..Len(Ev.cols) : ~SparseColOk(Ev.cols[i])} = {}
+  /\ LET keys == {Ev.cols[i].key : i \in 1..Len(Ev.cols)}
+         srcs == IF Has(Ev, "stack") THEN {Ev.stack[i] : i \in 1..Len(Ev.stack)} ELSE {Ev.t}
+     IN {t \in srcs : {k \in DOMAIN tables[t].cols : k \notin keys /\ tables[t].cols[k].rows # <<>>} # {}} = {}
+
 TTable ==
   /\ Ev.ev = "table" /\ Ev.t = Len(tables) + 1
-  /\ {i \in 1..Len(Ev.cols) : ~(WellFormed(Ev.cols[i].off, Ev.cols[i].flat) /\ Len(Ev.cols[i].off) = Ev.nrows + 1)} = {}
+  /\ IF Has(Ev, "sparse")        \* a huge table: the columns list their non-empty rows <<row, values>>, rows increasing
+     THEN {i \in 1..Len(Ev.cols) : ~SparseWellFormed(Ev.cols[i].rows, Ev.nrows)} = {}
+     ELSE {i \in 1..Len(Ev.cols) : ~(WellFormed(Ev.cols[i].off, Ev.cols[i].flat) /\ Len(Ev.cols[i].off) = Ev.nrows + 1)} = {}
   /\ tables' = Append(tables, [nrows |-> Ev.nrows,
                                cols |-> [k \in {Ev.cols[i].key : i \in 1..Len(Ev.cols)} |->
                                            Ev.cols[CHOOSE i \in 1..Len(Ev.cols) : Ev.cols[i].key = k]]])
@@ -72,7 +114,7 @@ ColOk(c) ==
     /\ (Ident /\ c.type \in {"i64", "u64", "f64"} /\ ~Has(Ev, "phase")) => c.type = CoercedType(Small(ClassesOf(c.key)))
 
 TRead ==
-  /\ Ev.ev = "read"
+  /\ Ev.ev = "read" /\ ~Has(Ev, "sparse")
   /\ UNCHANGED <<tables, cvars>>
   /\ (Ident => Ev.nrows = tables[Ev.t].nrows)
   /\ (~Ident => Len(Ev.rows) = Ev.nrows)
@@ -95,11 +137,16 @@ TRead ==
                    IF Has(q, "exists") THEN ~ExistsOk(c, q)
                    ELSE IF Has(c, "flat") THEN ~RangeOk(c, c.flat, q) ELSE FALSE} = {})
 
+TReadSparse ==
+  /\ Ev.ev = "read" /\ Has(Ev, "sparse")
+  /\ UNCHANGED <<tables, cvars>>
+  /\ SparseReadOk
+
 TEnd == Ev.ev = "end" /\ UNCHANGED <<tables, cvars>>
 
 TNext ==
   /\ l <= Len(Rec) /\ l' = l + 1
-  /\ \/ TCase \/ TTable \/ TRead \/ TEnd
+  /\ \/ TCase \/ TTable \/ TRead \/ TReadSparse \/ TEnd
 
 TInit == l = 1 /\ tables = <<>> /\ Init
 TSpec == TInit /\ [][TNext]_tvars
